@@ -23,6 +23,7 @@ def multi(id, prop, kind, edits, expect=""):
 
 
 # ----------------------------------------------------------------------------- C11
+mutant("c11-subgraph-opset-from-missing-attribute", "C11", "jax2onnx/plugins/jax/lax/_control_flow_utils.py", "        \"opset\": getattr(parent_ctx.builder, \"opset\", 21),", "        \"opset\": getattr(parent_ctx, \"opset_version\", 23),", expect="R-C11f")
 mutant("c11-silu-guard-dropped", "C11", "jax2onnx/plugins/jax/nn/silu.py", "if opset >= 24:", "if opset >= 22:", expect="Swish")
 mutant("c11-swish-pass-guard-weakened", "C11", OPT, "if _graph_default_opset(graph) < 24:\n        return", "if _graph_default_opset(graph) < 22:\n        return", expect="Swish")
 mutant("c11-rmsnorm-guard-removed", "C11", "jax2onnx/plugins/flax/nnx/rms_norm.py", "            and opset >= 23\n", "", expect="RMSNormalization")
@@ -131,6 +132,7 @@ benign("c19-benign-extra-kwargs-catchall", "C19", JT, "def _patched(a: ArrayLike
 benign("c19-benign-annotation-change", "C19", JT, "def _patched(a: ArrayLike, axes: AxesArg = None) -> jax.Array:", "def _patched(a: object, axes: object = None) -> jax.Array:")
 
 # ----------------------------------------------------------------------------- C02
+mutant("c02-elementwise-predicate-ignores-domain", "C02", OPT, "    if (getattr(node, \"domain\", \"\") or \"\") != \"\":\n        return False\n    return (\n        node.op_type in ELEMENTWISE_UNARY_OPS", "    return (\n        node.op_type in ELEMENTWISE_UNARY_OPS", expect="R-C02l")
 mutant("c02-softmax-listed-layout-invariant", "C02", OPT, "    \"Abs\",\n    \"Neg\",\n    \"Exp\",", "    \"Abs\",\n    \"Softmax\",\n    \"Neg\",\n    \"Exp\",", expect="R-C02k")
 mutant("c02-same-value-by-producer", "C02", OPT, "    if left is right:\n        return True\n    left_name = _v_name(left)", "    if left is right:\n        return True\n    left_producer = left.producer()\n    if left_producer is not None and left_producer is right.producer():\n        return True\n    left_name = _v_name(left)", expect="R-C02j")
 benign("c02-benign-erf-listed-layout-invariant", "C02", OPT, "    \"Abs\",\n    \"Neg\",\n    \"Exp\",", "    \"Abs\",\n    \"Erf\",\n    \"Neg\",\n    \"Exp\",")
@@ -178,6 +180,7 @@ benign("c02-benign-unary-op-added", "C02", OPT, 'ALLOWED_ELEMWISE: Set[str] = {\
 benign("c02-benign-direct-predicates", "C02", OPT, "            if _value_is_observed(graph, nodes, reducer_out_val):\n", "            if _value_is_graph_output(graph, reducer_out_val) or _nested_graph_references_value(nodes, reducer_out_val):\n")
 
 # ----------------------------------------------------------------------------- C14
+multi("c14-process-latch-guards-per-context-registration", "C14", "mutant", [("jax2onnx/plugins/jax/lax/gather.py", "_CONST_HANDLERS_FLAG = \"_gather_const_handlers_registered\"\n", "_CONST_HANDLERS_FLAG = \"_gather_const_handlers_registered\"\n_CONST_HANDLERS_REGISTERED = False\n"), ("jax2onnx/plugins/jax/lax/gather.py", "    if getattr(ctx, _CONST_HANDLERS_FLAG, False):\n        return\n", "    global _CONST_HANDLERS_REGISTERED\n    if _CONST_HANDLERS_REGISTERED:\n        return\n    _CONST_HANDLERS_REGISTERED = True\n")], expect="R-C14f")
 mutant("c14-revert-sorted-param-names", "C14", PS, "            for pname in sorted(call_param_names):", "            for pname in call_param_names:", expect="call_param_names")
 mutant("c14-set-loop-allocates-names", "C14", OPT, "            for t_out_node in output_transposes:\n                t_out = _node_output(t_out_node)\n                if t_out is None:\n                    continue",
        "            for t_out_node in output_transposes:\n                t_out = _node_output(t_out_node)\n                if t_out is None:\n                    continue\n                graph.insert_before(t_out_node, ir.Node('', 'Identity', inputs=[t_out], outputs=[ir.Value(name='dbg')]))", expect="output_transposes")
@@ -225,6 +228,7 @@ mutant("c18-x64-context-dropped", "C18", UIF, "    with _temporary_x64(enable_do
 benign("c18-benign-eq-form", "C18", UIF, "        if expected_arr.shape != got_arr.shape:", "        if got_arr.shape != expected_arr.shape:")
 
 # ----------------------------------------------------------------------------- C09
+mutant("c09-manual-x64-save-restore", "C09", UIF, "    with _jax_x64_scope(enabled):\n        yield\n", "    prev = jax.config.jax_enable_x64\n    try:\n        if enabled != prev:\n            jax.config.update(\"jax_enable_x64\", enabled)\n        yield\n    finally:\n        if jax.config.jax_enable_x64 != prev:\n            jax.config.update(\"jax_enable_x64\", prev)\n", expect="global-write-context-read")
 mutant("c09-default-float64-constant", "C09", "jax2onnx/plugins/jax/lax/rsqrt.py", "            np.asarray(1.0, dtype=np_dtype),", "            np.asarray(1.0),", expect="bind_const_for_var")
 mutant("c09-default-float64-half", "C09", "jax2onnx/plugins/jax/lax/round.py", "np.asarray(0.5, dtype=np_dtype)", "np.asarray(0.5)", expect="round.py")
 mutant("c09-np-ones-without-dtype", "C09", "jax2onnx/plugins/jax/lax/rsqrt.py", "            np.asarray(1.0, dtype=np_dtype),", "            np.ones(()),", expect="np.ones")
@@ -251,6 +255,7 @@ benign("c15-benign-external-flag-after-save", "C15", UIF, "        if not any(in
 benign("c15-benign-dispatch-order", "C15", UIF, "    model_proto = ir.to_proto(result)\n    if normalized_mode == \"file\":", "    model_proto = ir.to_proto(result)\n    if \"file\" == normalized_mode:")
 
 # ----------------------------------------------------------------------------- C05
+mutant("c05-nchw-input-type-ignores-precision-flag", "C05", "jax2onnx/converter/conversion_api.py", "            type=ir.TensorType(\n                _dtype_to_ir(np.dtype(var.aval.dtype), self.enable_double_precision)\n            ),", "            type=ir.TensorType(_to_ir_dtype_from_np(np.dtype(var.aval.dtype))),", expect="graph-input-type-policy")
 mutant("c05-input-type-constant", "C05", "jax2onnx/converter/ir_context.py", "            name=f\"in_{index}\",\n            type=ir.TensorType(_dtype_to_ir(aval_dtype, promote_flag)),", "            name=f\"in_{index}\",\n            type=ir.TensorType(_dtype_to_ir(np.dtype(np.float32), promote_flag)),", expect="R-C05e")
 mutant("c05-output-type-from-default-float", "C05", "jax2onnx/converter/ir_context.py", "                target_enum = _dtype_to_ir(\n                    np_dtype, self.builder.enable_double_precision\n                )\n            current_type = v.type", "                target_enum = _dtype_to_ir(\n                    np.dtype(self._default_float_dtype), self.builder.enable_double_precision\n                )\n            current_type = v.type", expect="R-C05e")
 mutant("c05-revert-nchw-keep", "C05", OPT, '            if suffix.endswith("_nchw"):\n                suffix = suffix[: -len("_nchw")]\n', "", expect="_should_always_keep")
@@ -308,6 +313,7 @@ mutant("c04-scope-per-symbol", "C04", CAF, "        syms = jax_export.symbolic_s
 benign("c04-benign-tag-rename", "C04", LDF, 'key = f"coeff_term:{term}"', 'key = f"term_with_coefficient:{term}"')
 
 # ----------------------------------------------------------------------------- C06
+mutant("c06-while-condition-on-unmasked-candidates", "C06", "jax2onnx/plugins/jax/lax/while_loop.py", "    cond_inputs = cond_const_inputs + state_outputs\n", "    cond_inputs = cond_const_inputs + state_candidates\n", expect="R-C06f")
 FLF = "jax2onnx/plugins/jax/lax/fori_loop.py"
 mutant("c06-fori-trip-count-ignores-lower", "C06", FLF, "        trip_count = int(np.asarray(upper).item()) - int(np.asarray(lower).item())", "        trip_count = int(np.asarray(upper).item())", expect="R-C06e")
 mutant("c06-fori-index-offset-dropped", "C06", FLF, "    if lower != 0:\n        lower_const = _scalar_i64(body_ctx, int(lower), \"fori_lower\")", "    if lower != 0 and False:\n        lower_const = _scalar_i64(body_ctx, int(lower), \"fori_lower\")", expect="R-C06e")
@@ -375,6 +381,8 @@ benign("c08-benign-refresh-not-excluded-explicitly", "C08", OPT, "    if node.op
 mutant("c08-float16-declared-float32", "C08", "jax2onnx/converter/ir_context.py", "            and np.dtype(aval_dtype).itemsize\n            > np.dtype(self._default_float_dtype).itemsize", "            and aval_dtype != np.dtype(self._default_float_dtype)", expect="R-C08g")
 mutant("c08-merge-failure-keeps-operand-shape", "C08", OPT, "        if len(candidate_shapes) > 1:\n            # The broadcast of the operands cannot be derived here (e.g. two\n            # unrelated symbolic dims).  One operand's shape is not the result's\n            # shape, so keep the annotation the output already had.\n            outs[0].shape = previous_shape\n        return", "        return", expect="R-C08f")
 benign("c08-benign-narrow-only-float64", "C08", "jax2onnx/converter/ir_context.py", "            and np.dtype(aval_dtype).itemsize\n            > np.dtype(self._default_float_dtype).itemsize", "            and aval_dtype == np.float64")
+mutant("c08-passthrough-table-gains-unrefreshed-op", "C08", OPT, "ALLOWED_ELEMWISE: Set[str] = {\n    \"Elu\",", "ALLOWED_ELEMWISE: Set[str] = {\n    \"Softplus\",\n    \"Elu\",", expect="R-C08h")
+multi("c08-benign-passthrough-op-also-propagated", "C08", "benign", [(OPT, "ALLOWED_ELEMWISE: Set[str] = {\n    \"Elu\",", "ALLOWED_ELEMWISE: Set[str] = {\n    \"Softplus\",\n    \"Elu\","), (OPT, "UNARY_DATAFLOW_OPS: Set[str] = {\n    \"Gelu\",", "UNARY_DATAFLOW_OPS: Set[str] = {\n    \"Softplus\",\n    \"Gelu\",")])
 benign("c08-benign-guard-split", "C08", PPF, "            name = _value_name(output)\n            if name and name in io_names:\n                continue\n", "            name = _value_name(output)\n            if name:\n                if name in io_names:\n                    continue\n")
 mutant("c11-attribute-through-helper-mapping", "C11", "jax2onnx/plugins/flax/nnx/elu.py", 'attrs["alpha"] = float(alpha)', 'attrs["slope"] = float(alpha)', expect="slope")
 mutant("c02-swish-operands-not-compared", "C02", OPT, "        if isinstance(sigmoid_input, ir.Value) and _same_value(\n            sigmoid_input, passthrough\n        ):", "        if isinstance(sigmoid_input, ir.Value):", expect="_same_value")
